@@ -182,7 +182,7 @@ def run_c18(tier, seed):
                         try:
                             setattr(target, val[0], val[1])
                             bad("nested-assign:larger-accepted", history=done, field=val[0])
-                        except (ValueError, MemoryError):
+                        except Exception:  # noqa  (refused)
                             pass
                     # (whether a refused assignment may leave a partial update behind is C11's question, not C18's)
                     if c.b.k != before_k or c.z != before_z:
@@ -198,7 +198,7 @@ def run_c18(tier, seed):
                     try:
                         c.r = a3
                         bad("ref-assign:accepted-across-buffers", history=done)
-                    except MemoryError:
+                    except Exception:  # noqa  (refused: the statement does not name the error class)
                         pass
                     c.r = a0
                 elif op == "set_none_ref":
@@ -228,13 +228,13 @@ def run_c18(tier, seed):
                     try:
                         c.b.move(_buffer=X.ContextCpu().new_buffer(16))
                         bad("move:nested-accepted", history=done)
-                    except MemoryError:
+                    except Exception:  # noqa  (refused: the statement does not name the error class)
                         pass
                 elif op == "move_with_ref":
                     try:
                         c.move(_buffer=X.ContextCpu().new_buffer(16))
                         bad("move:with-refs-accepted", history=done)
-                    except MemoryError:
+                    except Exception:  # noqa  (refused: the statement does not name the error class)
                         pass
             except Exception as e:  # noqa
                 bad(f"raised:{op}:{type(e).__name__}", history=done, problem=str(e)[:200])
